@@ -6,7 +6,7 @@
    the cACG minoriser; and, with no hypothesis about the M-step left, the whole EM iteration of the diagonal-covariance
    GMM (theorems C02_gmm_diagonal_...). *)
 From Coq Require Import Reals Lra.
-From PB Require Import Ops CLin Model.EM Model.Loglik Proofs.EM Proofs.EMAscent Proofs.Loglik Proofs.GMMAscent Proofs.GMMRefine Proofs.GMMSphAscent.
+From PB Require Import Ops CLin Model.EM Model.Loglik Proofs.EM Proofs.EMAscent Proofs.Loglik Proofs.GMMAscent Proofs.GMMRefine Proofs.GMMSphAscent Proofs.GMMSalAscent.
 From PB Require Import Model.GMMLoop.
 Open Scope R_scope.
 
@@ -119,6 +119,21 @@ Theorem C02_gmm_spherical_em_step_ascent (K' D N : nat) (tiny epsw : R) (y : nat
               (fun k _ => vs' K' D N tiny y w mu vs k)).
 Proof. intros Ht HN HD Hw Hs Hv Hm Hv2. eapply gmm_sph_em_step_ascent; eauto. Qed.
 Print Assumptions C02_gmm_spherical_em_step_ascent.
+
+(* ... and with an arbitrary strictly positive saliency s_n ("for every ... saliency"): the monotone quantity is
+   sum_n s_n ln sum_k pi_k N(y_n; mu_k, diag v_k); the M-step is weight_sal on (posterior, saliency) and g_mean / g_cov_diag on
+   the masked affiliation posterior * saliency, as GMMTrainer hands them to its sub-trainers *)
+Theorem C02_gmm_diagonal_saliency_em_step_ascent (K' D N : nat) (tiny epsw : R) (y : nat -> nat -> R) (sal : nat -> R)
+    (w : nat -> R) (mu v : nat -> nat -> R) :
+  (0 < N)%nat -> (forall n, (n < N)%nat -> 0 < sal n) ->
+  (forall k, (k < S K')%nat -> 0 < w k) -> rsum (S K') w = 1 ->
+  (forall k d, (k < S K')%nat -> (d < D)%nat -> 0 < v k d) ->
+  (forall k, (k < S K')%nat -> tiny <= rsum N (fun n => gam K' D y w mu v n k * sal n)) ->
+  (forall k d, (k < S K')%nat -> (d < D)%nat -> 0 < vs_' K' D N tiny y sal w mu v k d) ->
+  loglik N (S K') sal (joint D y w mu v)
+  <= loglik N (S K') sal (joint D y (ws' K' D N epsw y sal w mu v) (mus' K' D N tiny y sal w mu v) (vs_' K' D N tiny y sal w mu v)).
+Proof. intros HN Hs Hw Hsum Hv Hm Hv2. eapply gmm_sal_em_step_ascent; eauto. Qed.
+Print Assumptions C02_gmm_diagonal_saliency_em_step_ascent.
 
 (* the guard of the GMM theorems is met by a concrete two-class model *)
 Example C02_gmm_guard_satisfiable : gmm_guard 1 1 2 (/ 2) (/ 2) ex_y ex_t.
